@@ -35,6 +35,10 @@ def read_frames(path):
     return out
 
 
+def _eps_td(r, *, t):
+    return 1.0 - 0.7 * float(np.exp(-4.0 * (r[0] - 0.2) ** 2)) * min(max(t / 0.1, 0.0), 1.0)
+
+
 def observe_pairs(rep, rng, tier):
     base_dev = meshes.make_device(rng, holes=1, terminals=2, max_edge_length=1.0, probe_points=True)
     noprobe = meshes.make_device(random.Random(1), holes=1, terminals=2, max_edge_length=1.0, probe_points=True)
@@ -55,6 +59,8 @@ def observe_pairs(rep, rng, tier):
         # a time-dependent applied field (the update then also receives the previous potential and time step)
         dict(A="ramp", cur=1.0, adaptive=True, screening=False, T=0.3),
         dict(A=0.5, cur=0.0, adaptive=False, screening=False, T=0.1),
+        # a time-dependent disorder parameter epsilon(r, t) (a weak link that closes while the run goes on)
+        dict(A=0.3, cur=1.0, adaptive=True, screening=False, T=0.2, eps="td"),
     ]
     if tier == "thorough":
         physics.append(dict(A=0.3, cur=1.0, adaptive=True, screening=True, T=0.08))
@@ -86,7 +92,7 @@ def observe_pairs(rep, rng, tier):
                 else:
                     opts = runs.make_options(td, **kw)
                 try:
-                    sol, _ = runs.traced_solve(dev, opts, A=Afield, currents=cur)
+                    sol, _ = runs.traced_solve(dev, opts, A=Afield, currents=cur, eps=_eps_td if ph.get("eps") == "td" else 1.0)
                     if var.get("output") == "relative":
                         os.chdir(os.path.join(td, "other"))
                 finally:
